@@ -174,6 +174,8 @@ package pegnet
 //@   ensures !isRejectErr(result2)
 //@   ensures result2 == nil ==> result1 == lastRatedBefore(Lrated, height) && result1 < height && (result1 > 0 ==> Lrated[result1]) && result0 != nil
 //@   ensures result2 == nil ==> (forall x int :: result1 < x && x < height ==> !Lrated[x])
+//@   ensures result2 == nil && result1 > 0 ==> ratesOf(result0, Lrate, result1)
+//@   ensures result2 != nil ==> result0 == nil
 //@   ensures envHealthy ==> result2 == nil
 //@
 //@ func (*Pegnet).SelectPendingRates
